@@ -167,3 +167,56 @@ func TestVerifC13Redirect(t *testing.T) {
 		}
 	}
 }
+
+// TestVerifC13Host: what the URL in the body of an open request contributes to the handshake the backend receives.  With
+// and without --rewrite-websocket-host, for bodies naming foreign authorities: the backend records the Host, the request
+// URI and the Origin-like headers of the websocket handshake.  The body may contribute its path and query, nothing else.
+func TestVerifC13Host(t *testing.T) {
+	out := verifOpenOut(t)
+	defer out.close()
+	type seen struct {
+		Host string `json:"host"`
+		URI  string `json:"uri"`
+	}
+	var mu sync.Mutex
+	var got []seen
+	up := websocket.Upgrader{}
+	be := httptest.NewServer(http.HandlerFunc(func(w http.ResponseWriter, r *http.Request) {
+		mu.Lock()
+		got = append(got, seen{Host: r.Host, URI: r.URL.RequestURI()})
+		mu.Unlock()
+		c, err := up.Upgrade(w, r, nil)
+		if err == nil {
+			c.Close()
+		}
+	}))
+	defer be.Close()
+	backendAddr := strings.TrimPrefix(be.URL, "http://")
+	wrapped := http.HandlerFunc(func(w http.ResponseWriter, r *http.Request) { w.WriteHeader(299) })
+	ident := func(h http.Handler, _ *metrics.MetricHandler) http.Handler { return h }
+	bodies := []string{"ws://front.example/ws?x=1", "ws://evil.example/ws?x=1", "wss://evil.example:8443/ws", "//evil.example/ws", "/only/a/path?q=2", "ws://[2001:db8::1]:8443/ws", "ws://front.example:81/ws",
+		"ws://EVIL.example/ws", "http://evil.example/ws", "ws://evil.example", "x:y", ""}
+	for _, rewrite := range []bool{false, true} {
+		h, err := Proxy(context.Background(), wrapped, backendAddr, "verifshim", rewrite, false, ident, nil)
+		if err != nil {
+			t.Fatal(err)
+		}
+		for _, body := range bodies {
+			mu.Lock()
+			got = nil
+			mu.Unlock()
+			req := httptest.NewRequest("POST", "http://front.example/verifshim/open", strings.NewReader(body))
+			rec := httptest.NewRecorder()
+			h.ServeHTTP(rec, req)
+			mu.Lock()
+			g := append([]seen{}, got...)
+			mu.Unlock()
+			r := map[string]interface{}{"kind": "host", "rewrite_host": rewrite, "open_body": body, "request_host": "front.example", "backend": backendAddr, "status": rec.Code, "handshakes": g}
+			if u, err := url.Parse(body); err == nil {
+				r["body_uri"] = u.RequestURI()
+				r["body_opaque"] = u.Opaque != ""
+			}
+			out.emit(r)
+		}
+	}
+}
